@@ -429,7 +429,7 @@ for _which in ("first", "last"):
 
 
 # ------------------------------------------------------------------ TypedNode.move_to: not supported, refused before anything is touched
-@contract(Q + "move_to", props=("C13", "C01", "C04"))
+@contract(Q + "move_to", props=("C13",))
 def _(c):
     """Typed nodes cannot be moved: every call is refused with NotImplementedError and nothing is written
     (C13: an unsupported move leaves the tree observably unchanged)."""
